@@ -104,7 +104,8 @@ func (r *vfC03Run) Replay() bool {
 		r.do(r.replayEntry, r.replayIn, f)
 		return true
 	}
-	return r.replaySeq == "" // a sequence replay is handled by the part itself (SkipSeq)
+	// a sequence replay is handled by the part that owns it (SkipSeq); every other part runs nothing
+	return !strings.HasPrefix(r.replaySeq, "seq|"+r.k.Name+"|")
 }
 
 // SkipSeq tells a stateful part whether sequence `id` is to be skipped (replay of another one).
